@@ -291,6 +291,20 @@ func Prefix(prefix []int) Chooser {
 	}
 }
 
+// Then follows a fixed prefix of choices and afterwards the given chooser.
+func Then(prefix []int, next Chooser) Chooser {
+	return func(step int, enabled []int, last int) int {
+		if step < len(prefix) {
+			for _, e := range enabled {
+				if e == prefix[step] {
+					return e
+				}
+			}
+		}
+		return next(step, enabled, last)
+	}
+}
+
 // Random picks uniformly, with a bias towards continuing the same thread (pct).
 func Random(intn func(int) int, stayPct int) Chooser {
 	return func(step int, enabled []int, last int) int {
